@@ -235,6 +235,7 @@ func Check(c Case) []evid.Violation {
 	s := &seen{}
 	mux := newMux(c, s)
 	var obs observed
+	webTrailersOnly := false
 	trueCode := 0
 	if c.Fail {
 		trueCode = int(codes.FailedPrecondition)
@@ -297,6 +298,7 @@ func Check(c Case) []evid.Violation {
 		}
 		if !found {
 			obs.trailer = obs.header // trailers-only
+			webTrailersOnly = true
 		}
 	}
 
@@ -356,11 +358,40 @@ func Check(c Case) []evid.Violation {
 		}
 		return nil
 	}
-	if vs := checkOut("header", c.Header, obs.header); vs != nil {
+	wantHeader, wantTrailer := c.Header, c.Trailer
+	if c.Transport == "grpcweb" && webTrailersOnly {
+		// one block for both: a key used as header and as trailer carries the header's values
+		// followed by the trailer's (nothing the handler set may be lost)
+		merged := append(append([]KV{}, c.Header...), c.Trailer...)
+		shared := map[string]bool{}
+		hk := map[string]bool{}
+		for _, kv := range c.Header {
+			hk[kv.Key] = true
+		}
+		for _, kv := range c.Trailer {
+			shared[kv.Key] = hk[kv.Key]
+		}
+		pick := func(kvs []KV) []KV {
+			var out []KV
+			for _, kv := range kvs {
+				if !shared[kv.Key] {
+					out = append(out, kv)
+				}
+			}
+			for _, kv := range merged {
+				if shared[kv.Key] {
+					out = append(out, kv)
+				}
+			}
+			return out
+		}
+		wantHeader, wantTrailer = pick(c.Header), pick(c.Trailer)
+	}
+	if vs := checkOut("header", wantHeader, obs.header); vs != nil {
 		return vs
 	}
 	if c.Transport != "http" {
-		if vs := checkOut("trailer", c.Trailer, obs.trailer); vs != nil {
+		if vs := checkOut("trailer", wantTrailer, obs.trailer); vs != nil {
 			return vs
 		}
 	}
@@ -602,11 +633,11 @@ func genCase(t *rapid.T, transports []string) Case {
 		hk[kv.Key] = true
 	}
 	for _, kv := range genKVs(t, "t") {
-		if !trailersOnly || !hk[kv.Key] || reserved[kv.Key] {
+		if !trailersOnly || c.Transport == "grpcweb" || !hk[kv.Key] || reserved[kv.Key] {
 			c.Trailer = append(c.Trailer, kv)
 		}
 	}
-	if !trailersOnly && len(c.Header) > 0 && rapid.IntRange(0, 2).Draw(t, "reuseKey") == 0 {
+	if (!trailersOnly || c.Transport == "grpcweb") && len(c.Header) > 0 && rapid.IntRange(0, 2).Draw(t, "reuseKey") == 0 {
 		src := c.Header[rapid.IntRange(0, len(c.Header)-1).Draw(t, "reuseIdx")]
 		if !reserved[src.Key] {
 			dup := false
